@@ -62,6 +62,8 @@ package controllers
 //@ assert at call Timer.Done#0: 2*successResponses > len(old(s.shardMetadata.Ensemble)) + len(old(s.shardMetadata.RemovedNodes))
 //@ assert at call Timer.Done#1: 2*successResponses > len(old(s.shardMetadata.Ensemble)) + len(old(s.shardMetadata.RemovedNodes))
 //@ ensures err == nil ==> res != nil && forall k model.Server :: inmap(res, k) ==> listContains(s.shardMetadata.Ensemble, k)
+//@ modifies *
+//@ preserves fields(shardController)
 
 // replaceInList: replacing a member of an ensemble of distinct servers by a server
 // that is not in it yields an ensemble of the same size, still of distinct servers,
@@ -86,3 +88,39 @@ package controllers
 //@ ensures forall i int :: 0 <= i && i < p ==> srvId(result[i]) == srvId(list[i])
 //@ ensures forall i int :: p <= i && i < len(result) - 1 ==> srvId(result[i]) == srvId(list[i+1])
 //@ modifies nothing
+
+// electLeader: the term is incremented exactly once and handed to the status resource
+// (durable store) before NewTerm is sent to any node; the leader that is installed is
+// the one selectNewLeader picked from newTermQuorum's answer.
+//
+//@ func shardController.electLeader(s) (err)
+//@ property C05
+//@ requires s.leaderElectionLatency != nil && s.ctx != nil && s.log != nil && s.statusResource != nil && s.newTermQuorumLatency != nil && s.eventListener != nil
+//@ requires s.shardMetadata.Term >= -1 && s.shardMetadata.Term < 4611686018427387904 && len(s.shardMetadata.Ensemble) >= 1
+//@ assert at call newTermQuorum#0: ghost(lastStoreTerm, s.statusResource) == s.shardMetadata.Term && s.shardMetadata.Term == old(s.shardMetadata.Term) + 1
+//@ assume at call newTermQuorum#0: err == nil ==> (exists k model.Server :: inmap(res, k)) && forall k model.Server :: inmap(res, k) ==> res[k] != nil && res[k].Term >= -1 && res[k].Offset >= -1 because "UNVERIFIED: (1) storage nodes answer NewTerm with a non-nil head entry >= (-1,-1); (2) at least one member of the current ensemble is among the successful responders — newTermQuorum counts removed nodes towards the majority, so with more removed nodes than ensemble members the answer could be empty and selectNewLeader would panic in rand.Intn(0); see DESIGN"
+//@ modifies *
+
+// refreshing the addresses replaces the servers of the ensemble one for one
+//@ func shardController.getRefreshedEnsemble
+//@ trusted
+//@ modifies nothing
+//@ ensures len(result) == len(s.shardMetadata.Ensemble)
+
+// RPC-driven steps of an election: not verified (network calls, goroutines); they do
+// not replace the controller's collaborators.
+//
+//@ func shardController.becomeLeader
+//@ trusted
+//@ modifies *
+//@ preserves s.statusResource, s.eventListener, s.log, s.leaderElectionLatency
+
+//@ func shardController.deletingRemovedNodes
+//@ trusted
+//@ modifies *
+//@ preserves s.statusResource, s.eventListener, s.log, s.leaderElectionLatency
+
+//@ func shardController.keepFencingFailedFollowers
+//@ trusted
+//@ modifies *
+//@ preserves s.statusResource, s.eventListener, s.log, s.leaderElectionLatency
